@@ -124,3 +124,90 @@ except ValueError as e:
 except Exception as e:
     reproduced, detail = True, f"{{type(e).__name__}}: {{e}}"
 """
+
+
+# ---------------------------------------------------------------------------------------------------------------
+# copy operations: _rechunk / merge_chunks through the universal blockwise contract and the zarr indexer contract
+
+from pyvc import gb  # noqa: E402
+from pyvc.arrays import sym_array  # noqa: E402
+
+OPS = "cubed.core.ops"
+
+
+class CopyOpSpec(FuncSpec):
+    props = ("C14", "C05", "C01", "C12", "C17")
+    explicit = (ValueError, TypeError, NotImplementedError, IndexError)
+
+    def install(self, c):
+        gb.install(c)
+
+    def raises(self, c, a, k, e):
+        if isinstance(e.etype, type) and issubclass(e.etype, self.explicit):
+            return self.declines(c, a, k, e)
+        return None
+
+    def declines(self, c, a, k, e):
+        return False
+
+
+@register
+class RechunkCopy(CopyOpSpec):
+    """_rechunk(x, copy_chunks, target_chunks, allow_irregular=False): one copy stage.
+    requires  (established by _rechunk_plan/_fix_copy_chunks, obligation there) per axis copy_chunks % target_chunks == 0
+              or copy_chunks >= extent — each task writes whole storage chunks of its target
+    ensures   result has x's shape and dtype; every element is preserved: result[idx] == x[idx] (GB.origin through the
+              indexer contract and the scatter loop of _assemble_index_chunk); every key the task reads is a valid block
+              of x; the block it writes has the shape of its copy chunk; GB.align holds."""
+
+    target = f"{OPS}:_rechunk"
+    name = f"{OPS}:_rechunk[regular]"
+
+    def configs(self, tier):
+        return [dict(ndim=nd) for nd in ((1, 2) if tier == "quick" else (1, 2, 3))]
+
+    def setup(self, c):
+        nd = c.cfg["ndim"]
+        x = sym_array(c, "x", nd)
+        copy = c.ints("copy", nd, lo=1)
+        tgt = c.ints("tgt", nd, lo=1)
+        for n, cc, tc in zip(x.shape, copy, tgt):
+            c.assume(cc <= n)
+            c.assume(tc <= n)
+            c.assume(c.Or(cc % tc == 0, cc >= n))
+        c.expect_origin = lambda j, g: ("array-x", tuple(g))
+        return (x, copy, tgt), dict(allow_irregular=False)
+
+    def ensures(self, c, a, k, res):
+        x, copy, tgt = a
+        yield "shape", c.eq_tuple(res.shape, x.shape)
+        yield "storage-chunks-are-the-requested-ones", c.eq_tuple(res._zarray.chunks, tgt)
+        ops = [r.op for r in getattr(c, "gb_calls", [])]
+        yield "one-copy-op-not-fusable", len(ops) == 1 and ops[0].fusable_with_predecessors is False and ops[0].fusable_with_successors is False
+
+
+@register
+class MergeChunks(CopyOpSpec):
+    """merge_chunks(x, chunks): chunks must be a per-axis multiple of x's chunk size (ValueError otherwise, also for a
+    wrong rank); every element preserved; result chunking is the requested one."""
+
+    target = f"{OPS}:merge_chunks"
+
+    def configs(self, tier):
+        return [dict(ndim=nd) for nd in ((1, 2) if tier == "quick" else (1, 2, 3))]
+
+    def setup(self, c):
+        nd = c.cfg["ndim"]
+        x = sym_array(c, "x", nd)
+        ch = c.ints("m", nd, lo=1)
+        c.expect_origin = lambda j, g: ("array-x", tuple(g))
+        return (x, ch), {}
+
+    def ensures(self, c, a, k, res):
+        x, ch = a
+        yield "shape", c.eq_tuple(res.shape, x.shape)
+        yield "accepted-only-multiples", c.And(*[m % xc == 0 for m, xc in zip(ch, x.chunksize)])
+
+    def declines(self, c, a, k, e):
+        x, ch = a
+        return c.Or(*[m % xc != 0 for m, xc in zip(ch, x.chunksize)])
